@@ -367,6 +367,7 @@ def random_cfg(rng):
     return cfg
 
 
+RE_LOREM_HUGE = re.compile(r'lorem[a-z]*[0-9$]{6,}', re.I)
 RE_REPEAT = re.compile(r'\*(\d+)')
 MAX_COPIES = 400
 
@@ -411,6 +412,12 @@ class Cases:
         return self.index[k]
 
     def add(self, abbr, cfg, tag):
+        if RE_LOREM_HUGE.search(abbr):
+            # `lorem` followed by >= 6 digits/`$` asks for >= 100 000 generated words (`lorem5$$$$$$$` is the name
+            # lorem50000001: 55 s of output, slow, not a hang) -- same reason as bound_copies; there is no option
+            # that limits the lorem word count, so these inputs are left out
+            self.skipped_lorem = getattr(self, 'skipped_lorem', 0) + 1
+            return
         self.items.append((abbr, self.cfg_id(bound_copies(abbr, cfg)), tag))
 
 
